@@ -349,10 +349,10 @@ class Envelope:
                     or len(states) == 0
                     or len(states) == 2
                 ):
-                    probabilities = (
-                        jnp.abs(jnp.sum(ps, axis=self.polarization.index)).flatten()
-                        ** 2
-                    )
+                    probabilities = jnp.sum(
+                        jnp.abs(ps) ** 2, axis=self.polarization.index
+                    ).flatten()
+                    probabilities /= jnp.sum(probabilities)
                     key = C.random_key
                     choice = int(
                         jax.random.choice(
@@ -376,9 +376,10 @@ class Envelope:
                     or len(states) == 0
                     or len(states) == 2
                 ):
-                    probabilities = (
-                        jnp.abs(jnp.sum(ps, axis=self.fock.index)).flatten() ** 2
-                    )
+                    probabilities = jnp.sum(
+                        jnp.abs(ps) ** 2, axis=self.fock.index
+                    ).flatten()
+                    probabilities /= jnp.sum(probabilities)
                     key = C.random_key
                     choice = int(
                         jax.random.choice(
